@@ -13,6 +13,9 @@ pub struct SpecOk {
     pub threads: Option<u32>,
     /// -maxdepth / -mindepth occurrences (is_max, value): the input may be refused or the value carried
     pub depth_limits: Vec<(bool, u32)>,
+    /// the input uses a form the vocabulary does not have to accept (chmod's fuller symbolic grammar):
+    /// it may be refused, but if it is accepted the tree must be this one
+    pub may_refuse: bool,
     pub tree: Expression,
 }
 
@@ -341,6 +344,8 @@ pub fn chmod_symbolic_d1(s: &str) -> Option<u32> {
 
 pub enum PermArg {
     Ok(PermCheck),
+    /// outside the required language; if accepted it must denote these bits
+    OkIfAccepted(PermCheck),
     NotMember,
     Unspecified(String),
 }
@@ -374,7 +379,56 @@ pub fn arg_perm(s: &str) -> PermArg {
                         who < cs.len() && "+-=".contains(cs[who]) && cs[who + 1..].iter().all(|x| "rwxXstugo".contains(*x))
                     });
                 if fuller {
-                    return PermArg::Unspecified("symbolic mode outside [ugoa]+[+-=][rwx]+ that chmod(1) would accept".into());
+                    // empty who (= a), empty permission list and X (execute only if some execute bit is
+                    // already set; the starting mode is 0 and no file is a directory here) have a fixed
+                    // chmod meaning; s t and copies (g=u) are left unspecified
+                    let mut m: u32 = 0;
+                    for clause in body.split(',') {
+                        let cs: Vec<char> = clause.chars().collect();
+                        let nwho = cs.iter().take_while(|x| "ugoa".contains(**x)).count();
+                        let mut who = 0u32;
+                        for c in &cs[..nwho] {
+                            who |= match c {
+                                'u' => 0o700,
+                                'g' => 0o070,
+                                'o' => 0o007,
+                                _ => 0o777,
+                            };
+                        }
+                        if nwho == 0 {
+                            who = 0o777;
+                        }
+                        let mut perm = 0u32;
+                        for c in &cs[nwho + 1..] {
+                            perm |= match c {
+                                'r' => 0o444,
+                                'w' => 0o222,
+                                'x' => 0o111,
+                                'X' => {
+                                    if m & 0o111 != 0 {
+                                        0o111
+                                    } else {
+                                        0
+                                    }
+                                }
+                                _ => return PermArg::Unspecified("symbolic mode using s, t or a copy (g=u)".into()),
+                            };
+                        }
+                        match cs[nwho] {
+                            '+' => m |= who & perm,
+                            '-' => m &= !(who & perm),
+                            _ => m = (m & !who) | (who & perm),
+                        }
+                    }
+                    if body.contains('-') && body.contains(',') {
+                        return PermArg::Unspecified("fuller symbolic mode with a '-' clause in a list (C08's known finding)".into());
+                    }
+                    let p = Permission(Mode::from_bits(m).unwrap());
+                    return PermArg::OkIfAccepted(match kind {
+                        0 => PermCheck::Equal(p),
+                        1 => PermCheck::AtLeast(p),
+                        _ => PermCheck::Any(p),
+                    });
                 }
                 return PermArg::NotMember;
             }
@@ -697,6 +751,7 @@ pub fn arity(l: Lang) -> usize {
 
 enum Built {
     Prim(Expression),
+    PrimMayRefuse(Expression),
     Opt(GlobalOption),
     NotMember(String),
     Unspec(String),
@@ -812,6 +867,7 @@ fn build(kw: &Kw, args: &[RawWord]) -> Built {
         "-xattr-match" => t(Test::XattrMatch(s0, args[1].text.clone())),
         "-perm" => match arg_perm(a0) {
             PermArg::Ok(p) => t(Test::Perm(p)),
+            PermArg::OkIfAccepted(p) => return Built::PrimMayRefuse(t(Test::Perm(p))),
             PermArg::NotMember => return nm!(),
             PermArg::Unspecified(s) => return Built::Unspec(s),
         },
@@ -873,12 +929,14 @@ pub enum Failure {
 
 pub struct Lexed {
     pub toks: Vec<Tok>,
+    pub may_refuse: bool,
 }
 
 pub fn lex(text: &str) -> Result<Lexed, (Spec, Option<Failure>)> {
     let cs: Vec<char> = text.chars().collect();
     let mut lx = Lx { cs: &cs, i: 0 };
     let mut toks = vec![];
+    let mut may_refuse = false;
     let unspec = |s: String| (Spec::Unspecified(s), None);
     loop {
         match lx.skip_blank() {
@@ -968,6 +1026,10 @@ pub fn lex(text: &str) -> Result<Lexed, (Spec, Option<Failure>)> {
         }
         match build(kw, &args) {
             Built::Prim(e) => toks.push(Tok::Prim(e)),
+            Built::PrimMayRefuse(e) => {
+                may_refuse = true;
+                toks.push(Tok::Prim(e))
+            }
             Built::Opt(o) => toks.push(Tok::Opt(o)),
             Built::NotMember(s) => {
                 let bad = if kw.lang == Lang::WordFormat { args[1].text.clone() } else { args[0].text.clone() };
@@ -979,7 +1041,7 @@ pub fn lex(text: &str) -> Result<Lexed, (Spec, Option<Failure>)> {
             Built::Unspec(s) => return Err(unspec(s)),
         }
     }
-    Ok(Lexed { toks })
+    Ok(Lexed { toks, may_refuse })
 }
 
 // ---------------------------------------------------------------------------------------------
@@ -1135,6 +1197,7 @@ pub fn parse_detail(text: &str) -> (Spec, Option<Failure>) {
         GlobalOption::MaxDepth(n) => limits.push((true, *n)),
         GlobalOption::MinDepth(n) => limits.push((false, *n)),
     };
+    let may_refuse = lexed.may_refuse;
     let mut toks = vec![];
     let mut leading = true;
     for tk in lexed.toks {
@@ -1152,10 +1215,10 @@ pub fn parse_detail(text: &str) -> (Spec, Option<Failure>) {
         }
     }
     if toks.is_empty() {
-        return (Spec::Ok(SpecOk { depth, threads, depth_limits: limits, tree: t(Test::True) }), None);
+        return (Spec::Ok(SpecOk { depth, threads, depth_limits: limits, may_refuse, tree: t(Test::True) }), None);
     }
     match grammar(&toks) {
-        Some(tree) => (Spec::Ok(SpecOk { depth, threads, depth_limits: limits, tree }), None),
+        Some(tree) => (Spec::Ok(SpecOk { depth, threads, depth_limits: limits, may_refuse, tree }), None),
         None => (Spec::Err("not a sentence of the operator grammar".into()), Some(Failure::Other("grammar".into()))),
     }
 }
